@@ -49,8 +49,11 @@ def run(ctx):
       r_ops, _ = cachesys.gen_workload(ctx.rng, nmetrics=3, nts=2, nstores=ctx.pick(4, 6), ndrains=0, nqueries=0)
       pre = ('m1',)
       # default schedule without faults tells how many backend calls there are
+      # the storing thread parked right before taking the cache lock for its k-th store while the writer drains
+      plans = [[('R', ('kind', 'acquire', k)), ('W', ('kind', 'release', wrel)), ('R', ('done',)), ('S', ('done',)), ('W', ('done',))]
+               for k in range(2, len(r_ops) + 1) for wrel in (2, 4)]
       n = writercheck.explore(ctx, wm, cfg, r_ops, set(), pre, bound=ctx.pick(1, 2), nrandom=ctx.pick(10, 100),
-                              limit=ctx.pick(70, 1200), sink=col)
+                              limit=ctx.pick(70, 1200), sink=col, plans=plans)
       ctx.evaluations += n
       ncalls = max(1, sum(1 for e in col.traces[-1]['ev'] if e['k'] == 'db'))
       for f in range(min(ncalls, ctx.pick(8, 14))):
